@@ -219,6 +219,11 @@ void Gen::fill(char* s, size_t n) {
 					// every defined sub-constraint layout equally often, plus the occasional undefined value
 					static const uint32_t V[] = {0, 1, 2, 6, 7, 8, 3};
 					c = V[rng.below(rng.below(8) ? 6 : 7)];
+					if (c == 3) {
+						// undefined values on both sides of the defined range (no descriptor is read for any of them)
+						static const uint32_t U[] = {3, 9, 13, 4, 0x7fffffffu, 5};
+						c = U[rng.below(6)];
+					}
 				}
 				put(&c, n, o);
 				return;
